@@ -129,7 +129,10 @@ def error_body(op, text):
                        ).toxml().encode("utf-8")
 
 
-RESPONSES = ["ok_ascii", "ok_multibyte", "cimerror", "illformed_xml", "bad_utf8",
+FMT = "{0} {x} {} } { %s %(a)s %d {0!A} {{"      # text that is hostile to
+#                                  str.format / %-formatting when it is (mis)used as a template
+RESPONSES = ["ok_ascii", "ok_multibyte", "cimerror", "cimerror_fmt", "ok_fmt",
+             "http500_fmt", "illformed_xml", "bad_utf8",
              "invalid_cimxml", "http500", "http401", "connerror", "timeout",
              "ok_srvtime_numeric", "ok_srvtime_garbage"]
 MULTI = "Grüße €日本語 \U0001F600 café " * 3
@@ -168,11 +171,18 @@ class Script:
                 b'DTDVERSION="2.0"><BOGUS/></CIM>'
         if rc == "cimerror":
             return 200, h, error_body(op, MULTI)
+        if rc == "cimerror_fmt":
+            return 200, h, error_body(op, FMT)
+        if rc == "http500_fmt":
+            h["CIMError"] = "unsupported-operation"
+            h["PGErrorDetail"] = FMT.replace("%", "%25")
+            return 500, h, FMT.encode("utf-8")
         if rc == "ok_srvtime_numeric":
             h["WBEMServerResponseTime"] = "12345"
         if rc == "ok_srvtime_garbage":
             h["WBEMServerResponseTime"] = "soon"
-        text = "plain ascii text" if rc == "ok_ascii" else MULTI
+        text = "plain ascii text" if rc == "ok_ascii" else (
+            FMT if rc == "ok_fmt" else MULTI)
         return 200, h, success_body(op, text)
 
 
